@@ -926,6 +926,7 @@ pub fn kem_ops(kem: u16) -> Option<Box<dyn KemOps>> {
         0x0011 => Some(Box::new(Kx::<hpke::kem::DhP384HkdfSha384>(PhantomData))),
         #[cfg(feature = "p521")]
         0x0012 => Some(Box::new(Kx::<hpke::kem::DhP521HkdfSha512>(PhantomData))),
+        0x7e57 => Some(Box::new(Kx::<crate::mockkem::ToyKem>(PhantomData))),
         _ => None,
     }
 }
@@ -970,6 +971,7 @@ pub fn suite_ops(kem: u16, kdf: u16, aead: u16) -> Option<Box<dyn SuiteOps>> {
         0x0011 => suite_row!(hpke::kem::DhP384HkdfSha384, kdf, aead),
         #[cfg(feature = "p521")]
         0x0012 => suite_row!(hpke::kem::DhP521HkdfSha512, kdf, aead),
+        0x7e57 => suite_row!(crate::mockkem::ToyKem, kdf, aead),
         _ => None,
     }
 }
